@@ -1093,7 +1093,7 @@ def run(ctx):
     logging.disable(logging.CRITICAL)
     _imports()
     regen(ctx)
-    ok, _ = ctx.build(['Proofs/C17_codec.vo', 'Proofs/C17_recover.vo', 'Proofs/C17_bounded.vo', 'Proofs/C17_file.vo'])
+    ok, _ = ctx.build(['Proofs/C17_codec.vo', 'Proofs/C17_recover.vo', 'Proofs/C17_bounded.vo', 'Proofs/C17_file.vo', 'Proofs/C17_tables.vo'])
     if ok:
         ctx.check_props('Props/C17.v')
     if ctx.build(['Model/ElfWriter.vo', 'Proofs/C17_recover.vo', 'Lib/Val.vo'])[0]:
@@ -1118,9 +1118,7 @@ MANIFEST = {
             'instances incl. malformed ones) and that binutils readelf and ppci\'s own ElfFile.load read the same facts '
             '(search oracle). Proved for every object (c17_file_layout + corollaries): every section and image byte range recorded '
             'by the writer lies in the final file and holds the section / Image.data bytes, with size, address, alignment, name '
-            'index, PT_LOAD vaddr/filesz and (after the congruence fix) p_offset = p_vaddr mod page size. Still missing for an '
-            'unbounded full-reader theorem: that the header tables and the string table sit at e_shoff/e_phoff/.strtab and '
-            'the symbol/RELA table contents (covered by layer theorems + the bounded family only).',
+            'index, PT_LOAD vaddr/filesz and (after the congruence fix) p_offset = p_vaddr mod page size. Wave 3, every object: c17_whole_file_tables — the reader decodes from the final bytes the ELF header record, the null + all recorded section headers at e_shoff (all fields, sh_link patched) and the program headers after the ELF header; c17_{shdr_table,symtab,rela,phdr}_read for lists of any length; c17_writer_{symbols,relas,section_headers}: the loops emit records with the prescribed fields. Still bounded only: the placement of .symtab/.rela/.strtab contents at their sh_offset inside the whole file and the acceptance of the complete ElfSpec.read.',
     'note': 'not modelled: ET_DYN (.dynamic/PT_DYNAMIC/DT_NEEDED), create_hash_table (dead code), DWARF (never emitted). '
             'Defects: big-endian (microblaze) files announce ELFDATA2MSB but pack every field in native order '
             '(fixes/C17-header-endianness.diff; Coq refutation c17_native_order_bigendian_refuted); relocatable files '
